@@ -65,9 +65,17 @@ PROTO_LO_KINDS = ["lo_herm", "lo_alias", "lo_list", "lo_sum", "lo_jac:em_leaves"
 def cases(tier, seed):
     out = []
     quick = tier == "quick"
-    # ---- (b) protocol search first (longest cases first so the pool stays busy)
+    # ---- (b) protocol search
+    proto = []
     for kind in PROTO_FN_KINDS + PROTO_LO_KINDS:
-        out.append({"search": "protocol", "kind": kind, "depth": 4, "bfs": 6 if quick else 8})
+        is_linop = kind.startswith("lo_")
+        heavy = kind.startswith("lo_jac:")       # every replay constructs a Jacobian operator
+        depth = 3 if (heavy and quick) else 4
+        bfs = (4 if quick else 6) if heavy else (6 if quick else 8)
+        proto.append({"search": "protocol", "kind": kind, "part": "bfs", "first": "", "depth": depth, "bfs": bfs})
+        for ev in _events(is_linop, bfs=False):
+            proto.append({"search": "protocol", "kind": kind, "part": "seq", "first": "%s/%s" % ev,
+                          "depth": depth, "bfs": bfs})
     # ---- (a) crash-point enumeration
     for fname in FN_FUNCTIONALS + ["solve", "symeig"]:
         if fname in LO_KINDS:
@@ -81,7 +89,22 @@ def cases(tier, seed):
                     for phase in PHASES:
                         out.append({"search": "crash", "functional": fname, "kind": kind, "debug": debug,
                                     "phase": phase, "rg": rg, "extra": 1})
-    return out
+    # the runner hands out consecutive chunks of cases to its workers: spread the long breadth-first cases so
+    # that no chunk holds two of them, then the remaining protocol cases, then the crash scenarios
+    n = len(out) + len(proto)
+    chunk = max(1, min(64, n // (16 * 8) or 1))
+    long_cases = [c for c in proto if c["part"] == "bfs"]
+    rest = [c for c in proto if c["part"] != "bfs"] + out
+    merged = []
+    while long_cases or rest:
+        if long_cases:
+            merged.append(long_cases.pop(0))
+            merged.extend(rest[:chunk - 1])
+            rest = rest[chunk - 1:]
+        else:
+            merged.extend(rest)
+            rest = []
+    return merged
 
 
 # =================================================================== matrix-free LinearOperators
@@ -514,7 +537,7 @@ def run_crash(cfg):
 from xitorch._utils.attr import get_attr  # noqa: E402   (the library's own by-name reader)
 
 PUSH_LABELS = ["cur", "orig", "f1", "f2", "alias", "mix"]
-BFS_PUSH_LABELS = ["cur", "orig", "f1", "f2", "alias"]
+BFS_PUSH_LABELS = ["cur", "orig", "f1", "alias"]
 
 
 def _events(is_linop, bfs):
@@ -738,10 +761,11 @@ class PWorld:
                     fails.append("call-does-not-use-installed-tensors")
             except Exception as e:
                 fails.append("call-raised:%s" % _sig(e))
-        fails.extend(self.invariant())
+        fails.extend(self.invariant(full=(k in ("pop", "popall", "call"))))
         return outcome, fails
 
-    def invariant(self):
+    def invariant(self, full=True):
+        """full=False skips the registration snapshot (used after events that cannot have touched the object)"""
         fails = []
         exp = self.expected()
         for holder, name, ui in self.slots:
@@ -766,16 +790,18 @@ class PWorld:
                 fails.append("objparams()-not-top-of-stack")
         if xitorch.is_debug_enabled() != self.debug_expected():
             fails.append("debug-flag-not-top-of-stack")
-        if not self.ref:
-            for f, d in self.snap.diff():
-                fails.append("at-rest-" + f)
-        # the user's object under a library-built operator is only substituted during a product
-        for f, d in self.usnap.diff():
-            fails.append("user-object-" + f)
+        if full:
+            if not self.ref:
+                for f, d in self.snap.diff():
+                    fails.append("at-rest-" + f)
+            # the user's object under a library-built operator is only substituted during a product
+            if self.user_holders:
+                for f, d in self.usnap.diff():
+                    fails.append("user-object-" + f)
         return fails
 
     def unwind(self):
-        """leave every context normally, LIFO; the object must be exactly as it was"""
+        """leave every context normally, LIFO; afterwards the object must be exactly as it was"""
         fails = []
         try:
             while self.ctx:
@@ -785,8 +811,6 @@ class PWorld:
                     self.locks -= 1
                 else:
                     self.ref.pop()
-                for f in self.invariant():
-                    fails.append("unwind:" + f)
             while self.dctx:
                 self.dctx.pop().close()
                 self.dref.pop()
@@ -801,7 +825,7 @@ class PWorld:
                     pass
             except Exception as e:
                 fails.append("unwind:push-rejected-after-unwind:%s" % type(e).__name__)
-            for f in self.invariant():
+            for f in self.invariant(full=False):
                 fails.append("unwind:" + f)
         xitorch.set_debug_mode(False)
         return fails
@@ -829,6 +853,8 @@ def run_protocol(cfg):
     n_exec = 0
     transitions = 0
     states = 0
+    nseen = 0
+    maxd = 0
 
     def record(hist, fails):
         for f in fails:
@@ -837,12 +863,44 @@ def run_protocol(cfg):
                 viol[key] = V(f, {"history": ["%s/%s" % e for e in hist]},
                               last_event="%s/%s" % hist[-1], hist_len=len(hist))
 
-    # (1) all sequences up to depth, undeduplicated
-    evs = _events(is_linop, bfs=False)
-    frontier = [[]]
-    for d in range(cfg["depth"]):
-        nxt = []
-        for hist in frontier:
+    if cfg["part"] == "seq":
+        # all sequences that start with cfg["first"], up to depth, undeduplicated
+        evs = _events(is_linop, bfs=False)
+        first = tuple(cfg["first"].split("/"))
+        first = (first[0], first[1] if len(first) > 1 else "")
+        frontier = [[]]
+        for d in range(cfg["depth"]):
+            nxt = []
+            for hist in frontier:
+                for ev in (evs if d > 0 else [first]):
+                    h2 = hist + [ev]
+                    w, outcome, fails = _replay(kind, h2)
+                    if outcome is None:
+                        w.unwind()
+                        continue
+                    n_exec += 1
+                    transitions += 1
+                    fails = list(fails) + w.unwind()
+                    key = "%d:%s:%s" % (d + 1, ev[0], outcome)
+                    table[key] = table.get(key, 0) + 1
+                    if fails:
+                        record(h2, sorted(set(fails)))
+                    else:
+                        nxt.append(h2)
+                    states += 1
+            frontier = nxt
+            maxd = d + 1 if nxt else maxd
+    else:
+        # breadth-first with deduplication on the reference state
+        evs = _events(is_linop, bfs=True)
+        w0 = PWorld(kind)
+        seen = {w0.canon(): []}
+        w0.unwind()
+        queue = [[]]
+        while queue:
+            hist = queue.pop(0)
+            if len(hist) >= cfg["bfs"]:
+                continue
             for ev in evs:
                 h2 = hist + [ev]
                 w, outcome, fails = _replay(kind, h2)
@@ -851,46 +909,22 @@ def run_protocol(cfg):
                     continue
                 n_exec += 1
                 transitions += 1
+                c = w.canon()
                 fails = list(fails) + w.unwind()
-                key = "%d:%s:%s" % (d + 1, ev[0], outcome)
+                key = "bfs:%s:%s" % (ev[0], outcome)
                 table[key] = table.get(key, 0) + 1
                 if fails:
                     record(h2, sorted(set(fails)))
-                else:
-                    nxt.append(h2)
-                states += 1
-        frontier = nxt
-    # (2) breadth-first with deduplication on the reference state
-    evs = _events(is_linop, bfs=True)
-    w0 = PWorld(kind)
-    seen = {w0.canon(): []}
-    w0.unwind()
-    queue = [[]]
-    maxd = 0
-    while queue:
-        hist = queue.pop(0)
-        if len(hist) >= cfg["bfs"]:
-            continue
-        for ev in evs:
-            h2 = hist + [ev]
-            w, outcome, fails = _replay(kind, h2)
-            if outcome is None:
-                w.unwind()
-                continue
-            n_exec += 1
-            transitions += 1
-            c = w.canon()
-            fails = list(fails) + w.unwind()
-            if fails:
-                record(h2, sorted(set(fails)))
-                continue
-            if c not in seen:
-                seen[c] = h2
-                queue.append(h2)
-                maxd = max(maxd, len(h2))
+                    continue
+                if c not in seen:
+                    seen[c] = h2
+                    queue.append(h2)
+                    maxd = max(maxd, len(h2))
+        nseen = len(seen)
     out = list(viol.values())
-    return {"viol": out, "obs": {"kind": kind, "table": table, "bfs_states": len(seen), "max_depth": maxd},
-            "status": "violation" if out else "ok", "n": n_exec, "states": states + len(seen),
+    return {"viol": out, "obs": {"kind": kind, "part": cfg["part"], "first": cfg.get("first"), "table": table,
+                                 "bfs_states": nseen, "max_depth": maxd},
+            "status": "violation" if out else "ok", "n": n_exec, "states": states + nseen,
             "transitions": transitions}
 
 
@@ -914,5 +948,6 @@ def coverage_extra(tier, seed, results):
         "protocol_search": {"objects": [r["cfg"]["kind"] for r in proto],
                             "states": int(sum(r.get("states", 0) for r in proto)),
                             "transitions": int(sum(r.get("transitions", 0) for r in proto)),
-                            "undeduplicated_depth": 4, "bfs_depth": proto[0]["cfg"]["bfs"] if proto else None},
+                            "undeduplicated_depth": max([r["cfg"]["depth"] for r in proto] or [0]),
+                            "bfs_depth": max([r["cfg"]["bfs"] for r in proto] or [0])},
     }
